@@ -152,7 +152,7 @@ BaseEntries(g) == {F(<<"oci-layout">>, "layout"), F(<<"index.json">>, "index")}
                   \cup {F(BPath(n), n) : n \in Exported(g)}
 
 LinkOK == {"none", "symroot", "symabs", "hardext", "chain2", "idxlink", "dotslash", "junk", "dirs"}
-LinkBad == {"symsib", "symup", "hardshared", "chain3"}      \* resolved wrongly by the code (findings C09-2, C09-3)
+LinkBad == {"symsib", "symup", "hardshared", "chain3"}      \* were resolved wrongly as found (C09-2, C09-3; switch LinkCode)
 Dot(e) == [e EXCEPT !.name = <<".">> \o @]
 WithLink(E, v, lp) ==
   LET bp == BPath(v)
@@ -184,7 +184,8 @@ WantOf(g, sel) == IF Len(g.roots) = 1 THEN g.roots[1].n
                   ELSE IF sel.by = "digest" THEN sel.v
                   ELSE g.roots[CHOOSE i \in 1..Len(g.roots) : g.roots[i].tag = sel.v].n
 NLinks(E) == Cardinality({e \in E : e.kind \in {"sym", "hard"}})
-\* an index entry that the importer treats as a blob after io.ReadAll (S6): fails unless the blob is empty
+\* an index entry that the importer treats as a blob: as found it was uploaded from a drained reader (S6, C09-1;
+\* switch DrainBug) and failed unless the blob was empty
 DrainClass(g, want) == \E n \in ClosureN(g.nodes, want) :
                           /\ g.nodes[n].k = "index"
                           /\ \E i \in 1..Len(g.nodes[n].kids) :
@@ -251,7 +252,7 @@ ThoroughIds == QuickIds \cup SmallIds \cup MidIds \cup BigIds
 GenSmallIds == {x \in ThoroughIds : Cardinality(Mk(x[1], x[2], x[3]).entries) <= 6}
 GenLargeIds == ThoroughIds \ GenSmallIds
 GenTinyIds == {x \in ThoroughIds : Cardinality(Mk(x[1], x[2], x[3]).entries) <= 5}
-\* the classes on which the importer as implemented fails (expected counterexamples) and liveness
+\* the classes on which the importer failed as found (expected counterexamples of the as-found switches) and liveness
 S6Ids == {"blobent", "unkent", "sharedent"} \X {"none"} \X {"def"}
 LinkBadIds == {"eidx"} \X LinkBad \X {"def"}
 DupPathIds == {"dksame"} \X {"none"} \X {"def"}
